@@ -343,7 +343,38 @@ class NodeLib(LibBase):
     def set_self_attr(self, ex, attr, v, st, lineno):
         if attr == "env" and isinstance(v, EnvRef):
             return [Outcome("next", st)]
+        from pyvc.execute import VDict
+        if isinstance(v, VDict):
+            # record literal: one field per (nested) constant key that the schema knows
+            states = [st]
+            for k, x in v.items.items():
+                nxt = []
+                for s0 in states:
+                    r = self.set_self_attr(ex, attr + "." + k, x, s0, lineno)
+                    if r is None:
+                        if (attr + "." + k) in self.schema(ex.ctx.cls):
+                            s0.f[attr + "." + k] = x
+                        nxt.append(s0)
+                    else:
+                        nxt.extend(o.state for o in r)
+                states = nxt
+            return [Outcome("next", s0) for s0 in states]
         sch = self.schema(ex.ctx.cls)
+        if attr in sch and sch[attr][0] == "num" and isinstance(v, Num) and sch[attr][1] == "real" and v.is_int:
+            st.f[attr] = Num(z3.ToReal(v.t))
+            return [Outcome("next", st)]
+        if attr in sch and sch[attr][0] == "num" and isinstance(v, VDyn):
+            st.f[attr] = Num(z3.ToInt(v.num)) if sch[attr][1] == "int" else Num(v.num)
+            return [Outcome("next", st)]
+        if attr in sch and sch[attr][0] == "str" and isinstance(v, VDyn):
+            st.f[attr] = VStr(z3.If(v.tag == V.T_STR, v.s, -1000 - v.tag))
+            return [Outcome("next", st)]
+        if attr in sch and sch[attr][0] == "bool" and isinstance(v, VDyn):
+            st.f[attr] = VBool(V.truth(v))
+            return [Outcome("next", st)]
+        if attr not in sch and not any(k.startswith(attr + ".") for k in sch):
+            if ex.ctx.fname == "__init__":
+                return [Outcome("next", st)]       # attribute outside the modelled state (bookkeeping only)
         if isinstance(v, SList) and v.ekind == ("any",) and attr in sch:
             kind = sch[attr]
             if kind[0] == "list":
